@@ -93,6 +93,10 @@ def run_mission_impl(case):
     proto.provider = Provider()
     plugin = MissionMobilityPlugin(proto, MissionMobilityConfiguration(speed=case["speed"], loop_mission=MODES[case["mode"]],
                                                                        tolerance=case["tol"]))
+    if case.get("decoy"):
+        # the protocol owns a second mission plugin (own configuration), created later and never started: it stays
+        # idle and must not get in the way of the first
+        decoy = MissionMobilityPlugin(proto, MissionMobilityConfiguration(speed=1.0, loop_mission=MODES["restart"], tolerance=50.0))  # noqa: F841
     out = []
     for op in case["ops"]:
         proto.provider.cmds = []
@@ -346,6 +350,10 @@ def run_trip_impl(case):
     out = []
     try:
         plugin = RandomMobilityPlugin(proto, cfg)
+        if case.get("decoy"):
+            # the protocol also owns an (idle) mission plugin and a second random-trip plugin that never starts a trip
+            decoys = (MissionMobilityPlugin(proto, MissionMobilityConfiguration(speed=1.0, tolerance=50.0)),  # noqa: F841
+                      RandomMobilityPlugin(proto, RandomMobilityConfig(x_range=(0, 0), y_range=(0, 0), z_range=(0, 0), tolerance=1e9)))
         for op in case["ops"]:
             proto.provider.cmds = []
             note = ""
